@@ -44,16 +44,18 @@ func (r *Request) Get(name string) []string {
 
 // Script tells the upstream how to answer.
 type Script struct {
-	Status   int
-	Headers  []Header
-	Body     []byte
-	Framing  string // "length" | "chunked" | "close"
-	ChunkSz  int
-	Trailers []Header
-	Delay    time.Duration // before the status line
-	Info     []int         // informational responses (e.g. 103) sent before the final status
-	Upgrade  bool          // answer 101 and then echo until the peer closes
-	NoBody   bool          // HEAD / 204 / 304
+	Status    int
+	Headers   []Header
+	Body      []byte
+	Framing   string // "length" | "chunked" | "close"
+	ChunkSz   int
+	Trailers  []Header
+	Delay     time.Duration // before the status line
+	Info      []int         // informational responses (e.g. 103) sent before the final status
+	Gate      chan struct{} // when set: wait until it is closed before answering (or before the rest of the body, see GateAfter)
+	GateAfter int           // chunked framing: bytes of the body to send before waiting on Gate (0 = wait before the status line)
+	Upgrade   bool          // answer 101 and then echo until the peer closes
+	NoBody    bool          // HEAD / 204 / 304
 }
 
 type Upstream struct {
@@ -107,6 +109,13 @@ func (u *Upstream) Close() {
 }
 
 func (u *Upstream) SetScript(id string, s *Script) { u.scripts.Store(id, s) }
+
+// Seen reports whether a request with the given id has arrived (nothing is forgotten).
+func (u *Upstream) Seen(id string) bool {
+	u.mu.Lock()
+	defer u.mu.Unlock()
+	return u.reqs[id] != nil
+}
 
 // Take returns and forgets the recorded request with the given id.
 func (u *Upstream) Take(id string) *Request {
@@ -241,6 +250,33 @@ func (u *Upstream) handle(c net.Conn, connID int64) {
 		u.mu.Unlock()
 		if sc.Delay > 0 {
 			time.Sleep(sc.Delay)
+		}
+		if sc.Gate != nil && sc.GateAfter > 0 && sc.Framing == "chunked" {
+			// a download in progress: first part now, the rest after the gate opens
+			var hb bytes.Buffer
+			fmt.Fprintf(&hb, "HTTP/1.1 %d Status\r\n", sc.Status)
+			for _, h := range sc.Headers {
+				fmt.Fprintf(&hb, "%s: %s\r\n", h.Name, h.Value)
+			}
+			hb.WriteString("Transfer-Encoding: chunked\r\n\r\n")
+			fmt.Fprintf(&hb, "%x\r\n", sc.GateAfter)
+			hb.Write(sc.Body[:sc.GateAfter])
+			hb.WriteString("\r\n")
+			if _, err := c.Write(hb.Bytes()); err != nil {
+				return
+			}
+			<-sc.Gate
+			var tb bytes.Buffer
+			fmt.Fprintf(&tb, "%x\r\n", len(sc.Body)-sc.GateAfter)
+			tb.Write(sc.Body[sc.GateAfter:])
+			tb.WriteString("\r\n0\r\n\r\n")
+			if _, err := c.Write(tb.Bytes()); err != nil {
+				return
+			}
+			continue
+		}
+		if sc.Gate != nil {
+			<-sc.Gate
 		}
 		if sc.Upgrade {
 			fmt.Fprintf(c, "HTTP/1.1 101 Switching Protocols\r\nUpgrade: websocket\r\nConnection: Upgrade\r\n\r\n")
